@@ -45,9 +45,9 @@ func VerifNewQLogFile(path string) (*VerifQLogFile, error) {
 	return &VerifQLogFile{q}, nil
 }
 
-func (f *VerifQLogFile) SeekStart() (int64, error)  { return f.q.SeekStart() }
+func (f *VerifQLogFile) SeekStart() (int64, error) { return f.q.SeekStart() }
 func (f *VerifQLogFile) ReadNext() (string, error) { return f.q.ReadNext() }
-func (f *VerifQLogFile) Close() error               { return f.q.Close() }
+func (f *VerifQLogFile) Close() error              { return f.q.Close() }
 func (f *VerifQLogFile) SeekTS(ts int64) (pos int64, depth int, err error) {
 	return f.q.seekTS(context.Background(), verifDiscard, ts)
 }
@@ -64,7 +64,12 @@ func VerifNewQLogReader(files []string) (*VerifQLogReader, error) {
 	return &VerifQLogReader{r}, nil
 }
 
-func (r *VerifQLogReader) SeekStart() error           { return r.r.SeekStart() }
+func (r *VerifQLogReader) SeekStart() error          { return r.r.SeekStart() }
 func (r *VerifQLogReader) ReadNext() (string, error) { return r.r.ReadNext() }
-func (r *VerifQLogReader) Close() error               { return r.r.Close() }
-func (r *VerifQLogReader) SeekTS(ts int64) error      { return r.r.seekTS(context.Background(), ts) }
+func (r *VerifQLogReader) Close() error              { return r.r.Close() }
+func (r *VerifQLogReader) SeekTS(ts int64) error     { return r.r.seekTS(context.Background(), ts) }
+
+// SeekExact is the second half of what a seek reports at the reader level:
+// whether the reader stands on a record with exactly the sought timestamp
+// (a nil error with false means "newer than everything: rewound").
+func (r *VerifQLogReader) SeekExact() bool { return r.r.seekExact }
